@@ -1,5 +1,6 @@
 //! Property checks: which engines run for which property, with how many runs per tier.
 use crate::core::*;
+use crate::e1_tx::TxSim;
 use crate::e2_journal::JournalSim;
 
 fn seed_from_env() -> u64 {
@@ -30,6 +31,22 @@ fn scale(tier: &str, quick: u64, thorough: u64) -> u64 {
 
 const REAL_E2: &[&str] = &["revm::JournaledState (all operations, unmodified)", "revm_primitives::{Account, EvmStorageSlot, AccountStatus}"];
 const STUB_E2: &[&str] = &["SimDisk (BTreeMap plain state)", "FaultyDb (fault-injecting Database)"];
+const REAL_E1: &[&str] = &[
+    "revm::Evm + Handler (mainnet handlers) + JournaledState + revm-interpreter (all opcodes) + revm-precompile incl. C libraries",
+    "revm inspector_handle_register (real hook plumbing)",
+    "revm::db::{CacheDB, State, WrapDatabaseRef} as drawn per run",
+];
+const STUB_E1: &[&str] = &[
+    "SimDisk (BTreeMap plain state) + FaultyDb (fault-injecting Database) at the bottom of the stack",
+    "Monitor (simulator's Inspector: probe + F3 short-circuit injector)",
+    "generated contracts and transactions (seeded program generator)",
+];
+
+fn strs(v: &[&str]) -> Vec<String> {
+    v.iter().map(|s| s.to_string()).collect()
+}
+
+const E1_RULE: &str = "seeded worlds (2-4 EOAs, 1-6 generated contracts with calldata-guarded snippets, CREATE/CREATE2 factories, 13 specs, layer stack and F7 knobs drawn per run) and histories of 1-4 transactions on one live Evm with the monitor inspector; faults: F1 database error at a drawn call index, F2 out-of-gas through low gas limits / constant call gas, F3 inspector short-circuits; a case is non-trivial if at least one transaction executed and distinct by the hash of (spec, outcome classes, monitor event sequence)";
 
 pub fn check(prop: &str, tier: &str) -> i32 {
     let seed = seed_from_env();
@@ -37,14 +54,33 @@ pub fn check(prop: &str, tier: &str) -> i32 {
     let mut rep = CheckReport::new(prop, tier, seed);
     match prop {
         "C06" => {
-            rep.rule = "seeded histories of JournaledState operations with nested checkpoint/commit/revert over a fault-injecting database; a case is non-trivial if at least one state-changing operation ran and distinct by the hash of (spec, operation-kind sequence, failure results)".into();
-            rep.real_components = REAL_E2.iter().map(|s| s.to_string()).collect();
-            rep.stub_components = STUB_E2.iter().map(|s| s.to_string()).collect();
+            rep.rule = "E2: seeded histories of JournaledState operations with nested checkpoint/commit/revert over a fault-injecting database; E1: frame-level snapshots around every failed call/create frame of generated transactions; non-trivial if at least one state-changing operation ran; distinct by the hash of (spec, operation-kind sequence, failure results) resp. the E1 event hash".into();
+            rep.real_components = strs(REAL_E2);
+            rep.real_components.extend(strs(REAL_E1));
+            rep.stub_components = strs(STUB_E2);
+            rep.stub_components.extend(strs(STUB_E1));
             rep.assumptions = vec![
                 "API preconditions respected as the EVM does (account loaded and warm before sstore/inc_nonce/set_code/selfdestruct; caller balance checked before create; checkpoints closed LIFO)".into(),
                 "absent account/slot is identified with cold + database value; RIPEMD touch exception excluded".into(),
+                "frame level: hooks fire before frame set-up, so warm marks and the creator's nonce bump are excluded".into(),
             ];
             rep.run_engine(&JournalSim { focus: "C06".into() }, scale(tier, 200_000, 10_000_000), &findings);
+            rep.run_engine(&TxSim { focus: "C06".into() }, scale(tier, 20_000, 1_000_000), &findings);
+        }
+        "C07" | "C08" | "C09" | "C10" | "C11" | "C29" | "C30" | "C34" => {
+            rep.rule = E1_RULE.into();
+            rep.real_components = strs(REAL_E1);
+            rep.stub_components = strs(STUB_E1);
+            rep.assumptions = vec!["the monitor reads only the journaled state, never the database".into(), "injected inspector outcomes are legal ones (gas <= forwarded gas, results real frames produce)".into()];
+            let (q, t) = match prop {
+                "C07" => (6_000, 300_000),
+                _ => (30_000, 1_500_000),
+            };
+            rep.run_engine(&TxSim { focus: prop.into() }, scale(tier, q, t), &findings);
+            if prop == "C34" {
+                rep.real_components.extend(strs(REAL_E2));
+                rep.run_engine(&JournalSim { focus: "C34".into() }, scale(tier, 100_000, 5_000_000), &findings);
+            }
         }
         _ => {
             eprintln!("unknown property {prop}");
@@ -73,6 +109,7 @@ pub fn replay(path: &str) -> i32 {
     let focus = rf.engine.split('/').nth(1).unwrap_or("").to_string();
     let res = match engine_kind.as_str() {
         "journalsim" => replay_with(&JournalSim { focus }, &rf),
+        "txsim" => replay_with(&TxSim { focus }, &rf),
         other => Err(format!("unknown engine {other}")),
     };
     match res {
